@@ -678,10 +678,11 @@ Definition has_unapplied_conf_changes (r : raft) (lo hi : N) : Res bool :=
 (* Raft::hup *)
 Definition hup (r : raft) (transfer_leader : bool) : Res raft :=
   if is_leader r then Ok r else
-  let low := match u_maybe_first_index (unst (r_log r)) with
-             | Some i => i
-             | None => applied (r_log r) + 1
-             end in
+  (* below the first index everything is covered by the snapshot (fix a8252b4): the scan starts there *)
+  low <- match u_maybe_first_index (unst (r_log r)) with
+         | Some i => Ok i
+         | None => fi <- first_index (r_log r) ;; Ok (N.max (applied (r_log r) + 1) fi)
+         end ;;
   let high := committed (r_log r) + 1 in
   b <- has_unapplied_conf_changes r low high ;;
   if b then Ok r else
